@@ -1151,11 +1151,12 @@ func (g *generatorObject) _return(v Value) Value {
 	}
 	if !canContinue {
 		vm := g.gen.vm
-		g.state = genStateCompleted
 
 		vm.popTryFrame()
 
+		// (the generator is still executing while its open iterators are closed: a re-entrant call from a return() method is a TypeError)
 		ex := vm.restoreStacks(g.gen.iterStackLen, g.gen.refStackLen)
+		g.state = genStateCompleted
 
 		if ex != nil {
 			panic(ex)
